@@ -202,7 +202,7 @@ def ref_folders(ctx):
 
 def mk_text(ref):
     kind = ref['kind']
-    if kind == 'comp':
+    if kind in ('comp', 'var'):
         head = ref['name'] if ref['explicit_stage'] is None else 'stage%d.%s' % (ref['explicit_stage'], ref['name'])
     else:
         head = ref['name']
@@ -269,8 +269,14 @@ def gen_ref(r, ctx):
             ref['name'], ref['rest'] = mk_path_of(ref), ''
     else:
         ref['kind'] = 'var'
-        ref['name'] = '%%(%s)s' % r.choice(['v', 'input-dir', 'my.var', 'DATA_ROOT', 'x1'])
+        # the producer is, or contains, a variable: '%(p)s', 'pre%(p)s', '%(p)s-suf', '%(a)s.%(b)s' ...
+        v = lambda: '%%(%s)s' % r.choice(['v', 'p', 'producer', 'input-dir', 'my.var', 'a.b', 'DATA_ROOT', 'x1'])
+        ref['name'] = r.choice([v(), v(), 'pre' + v(), 'prefix-' + v(), v() + '-suf', v() + '2', v() + '.' + v(),
+                                'a.' + v(), v() + '_' + v()])
         ref['rest'] = gen_path(r)
+        # ... written relatively or qualified with a stage: it is never a reference to a component either way
+        if r.random() < 0.5:
+            ref['explicit_stage'] = r.randint(0, 13)
     if ref['name'] is None:
         ref['name'] = r.choice(known[sorted(known, key=int)[0]])
         ref['rest'] = gen_path(r)
@@ -373,11 +379,23 @@ def judge(ref, ctx, do_validate=False):
     # --- c1 parse -> print (context free)
     s, p, f, me = FlowIR.ParseDataReferenceFull(r)
     back = FlowIR.compile_reference(p, f, me, s)
-    hit('c1_roundtrip')
-    if back != r:
-        fail('c1_roundtrip', '-', {'parts': [s, p, f, me], 'printed': back})
+    if ref['kind'] == 'var' and ref['explicit_stage'] is not None:
+        # ParseDataReferenceFull signals "not a component" by stage None, so its 4-tuple cannot carry the stage
+        # prefix of a stage-qualified variable reference: the printed form is the relative spelling.  The exact
+        # round trip of these strings is judged on ParseDataReference below (c1_plain) and on DataReference (c3).
+        hit('c1_stage_qualified_variable')
+        if s is not None or back != mk_text(dict(ref, explicit_stage=None)):
+            fail('c1_stage_qualified_variable', '-', {'parts': [s, p, f, me], 'printed': back})
+    else:
+        hit('c1_roundtrip')
+        if back != r:
+            fail('c1_roundtrip', '-', {'parts': [s, p, f, me], 'printed': back})
     if me != ref['method']:
         fail('c1_method', '-', {'got': me})
+    pr, pf, pm = FlowIR.ParseDataReference(r)
+    hit('c1_plain')
+    if FlowIR.compile_reference(pr, pf, pm) != r:
+        fail('c1_plain', '-', {'parts': [pr, pf, pm], 'printed': FlowIR.compile_reference(pr, pf, pm)})
 
     # --- c3 DataReference spellings (by-construction parts for component-shaped references)
     if ref['kind'] == 'comp':
@@ -403,13 +421,22 @@ def judge(ref, ctx, do_validate=False):
     else:
         d = graph.DataReference(r, None)
         hit('c3_direct')
-        if d.stageIndex is not None or d.namespace is not None:
+        # (DataReference is context free: a stage prefix in the text is kept as written)
+        if d.stageIndex != ref.get('explicit_stage') or (d.namespace is None) != (ref.get('explicit_stage') is None):
             fail('c3_direct', '-', {'stageIndex': d.stageIndex})
         d2 = graph.DataReference(d.absoluteReference, None)
-        d3 = graph.DataReference(d.relativeReference, None)
-        t = (d.producerName, d.path, d.method)
-        if (d2.producerName, d2.path, d2.method) != t or (d3.producerName, d3.path, d3.method) != t:
+        d3 = graph.DataReference(d.relativeReference, d.stageIndex)
+        t = (d.stageIndex, d.producerName, d.path, d.method)
+        if (d2.stageIndex, d2.producerName, d2.path, d2.method) != t \
+                or (d3.stageIndex, d3.producerName, d3.path, d3.method) != t or d.absoluteReference != r:
             fail('c3_direct', '-', {'absolute': d.absoluteReference, 'relative': d.relativeReference})
+        if ref['kind'] == 'var':
+            # agreement of the parsers on the by-construction parts of a variable reference
+            hit('c6_variable_parts_agree')
+            fullp = FlowIR.ParseDataReferenceFull(r, stage)
+            want = (ref['name'], ref['rest'], ref['method'])
+            if tuple(fullp[1:]) != want or (d.producerName, d.path, d.method) != want:
+                fail('c6_variable_parts_agree', '-', {'full': list(fullp), 'datareference': list(t), 'want': list(want)})
 
     # --- context dependent clauses, once per feed of top-level folders
     feeds = [('reference', list(want_tlf))]
@@ -434,6 +461,19 @@ def judge(ref, ctx, do_validate=False):
         if truth[0] in ('comp', 'noncomp'):
             full = FlowIR.ParseDataReferenceFull(r, stage, application_dependencies=appdeps, special_folders=list(tlf))
             isc = FlowIR.is_datareference_to_component(r, list(tlf) + adnames)
+            # validate_references: nothing may be reported as an unknown component (folder / path / variable
+            # references are not components; known components are known)
+            comp_ids = [(int(st), n) for st, names in ctx['known'].items() for n in names]
+            missing = FlowIR.validate_references([r], comp_ids, stage, list(tlf) + adnames)
+            hit('c4_validate_references')
+            if missing:
+                fail('c4_validate_references', feed, {'reported_unknown': list(missing)})
+            if truth[0] == 'noncomp':
+                pot = FlowIR.expand_potential_component_reference(r, stage, known, None)
+                hit('c4_expand_potential_noncomp')
+                if pot != r and ref['kind'] in ('abs', 'var'):
+                    # (without folder information only paths and variables are recognisable)
+                    fail('c4_expand_potential_noncomp', feed, {'got': pot})
             if truth[0] == 'comp':
                 hit('c4_full_comp')
                 want = (truth[1], truth[2], ref['rest'], ref['method'])
@@ -494,7 +534,8 @@ def classify_known(ref, ctx, failure):
         if unsplit and missing and missing == {k.split('/', 1)[0] for k in unsplit}:
             return KEY_NESTED
         return None
-    if failure['clause'] not in ('c4_full_noncomp', 'c4_is_component', 'c4_expand_noncomp', 'c5_validate'):
+    if failure['clause'] not in ('c4_full_noncomp', 'c4_is_component', 'c4_expand_noncomp', 'c5_validate',
+                                 'c4_validate_references'):
         return None
     if ref['kind'] != 'manifest' and not (ref['kind'] == 'comp' and ref['explicit_stage'] is None):
         return None
@@ -634,7 +675,10 @@ def main():
                        "stage prefix (the relative spelling is documented as unsupported and is not judged)",
                        "absolute paths have 1-4 segments, optionally a trailing slash ('/' alone is not generated); file "
                        "paths of component references have no empty, '.' or '..' segments",
-                       "variables occupy the whole first path segment",
+                       "variable references: the producer is or contains %(name)s, with or without a stageN. prefix; they are "
+                       "never component references; ParseDataReferenceFull cannot carry their stage prefix (stage None is "
+                       "its non-component signal) so their exact round trip is judged on ParseDataReference + "
+                       "compile_reference and on DataReference",
                        "manifest keys are never of the form 'stage<digits>.<rest>'; application-dependency folder name = basename "
                        "without extension, lower-cased (documentation of application_dependency_to_name)",
                        "for references to folders only classification and self-consistency are judged, not how the "
